@@ -5,7 +5,7 @@ CONSTANTS
   InitRestated = FALSE
   OriginFromSuper = FALSE
   AllowModifyBusy = FALSE
-  SigCheck = FALSE
+  SigCheck = TRUE
   Parent <- Chain3
   Mode = "propq"
   QSels = {{3}}
